@@ -76,6 +76,7 @@ struct Profile {
   bool oom_group{true};
   bool legacy_psi{false};
   int unkillable_pct{20};
+  int oomd_xattr_pct{0}; // pre-existing oomd_ooms / oomd_kill counters
 };
 
 struct WorldGen {
@@ -178,6 +179,11 @@ struct WorldGen {
       if (k == 5) {
         c.xattrs["trusted.oomd_prefer"] = "1";
         c.xattrs["trusted.oomd_avoid"] = "1";
+      }
+    }
+    if (prof.oomd_xattr_pct) {
+      for (const char* name : {"trusted.oomd_ooms", "user.oomd_ooms", "trusted.oomd_kill", "user.oomd_kill"}) {
+        if (P(prof.oomd_xattr_pct)) c.xattrs[name] = std::to_string(P(70) ? R(0, 50) : R(0, 1 << 30));
       }
     }
     return c;
